@@ -511,6 +511,9 @@ struct Gen
       if (matching) {
         const G e = m.R(a).end();
         b         = base(&e);
+      } else if (!global && r.below(10) < 7) {
+        const G e = smooth::Identity<G>();  // operand in the local frame: starts at the identity
+        b         = base(&e);
       } else {
         b = base();
       }
